@@ -327,7 +327,11 @@ func (cmd *mainCmd) Run(args []string) error {
 				errors = append(errors, fmt.Errorf("reformat %q: %w", filename, err))
 				continue
 			}
-
+		} else if _, err := parser.ParseFile(token.NewFileSet(), filename, bs, parser.AllErrors); err != nil {
+			// imports.Process would have rejected output that doesn't
+			// parse. Without it, we still must not emit broken code.
+			errors = append(errors, fmt.Errorf("reformat %q: %w", filename, err))
+			continue
 		}
 
 		switch {
